@@ -143,7 +143,7 @@ static int mode_mutate(const char* path, int n_per_file, int shard, int nshards,
             std::string kind; auto es = random_mutation(r, c.bytes, L, other.size() > 100000 ? c.bytes : other, kind);
             std::sort(es.begin(), es.end(), [](const Edit& a, const Edit& b) { return a.off < b.off; });
             Job j; j.id = c.id + ".m" + std::to_string(k); j.cfg.mk = compatible_kind(c, r); j.cfg.tc = r.chance(1, 2); j.cfg.bu = r.chance(1, 2);
-            j.bytes = apply_edits(c.bytes, es); j.pre = x_line(j.id, c.id, j.cfg, kind, es);
+            j.bytes = apply_edits(c.bytes, es); j.pre = x_line(j.id, c.id, j.cfg, kind, es); j.same_as = &c.dump;
             jobs.push_back(std::move(j));
         }
     }
@@ -158,29 +158,35 @@ static int mode_faults(const char* path, bool thorough, int shard, int nshards, 
         if ((int)(ci % (size_t)nshards) != shard) continue;
         Case& c = *valid[ci]; const Bytes& p = c.bytes; Layout L = parse_layout(p);
         vh::Rng r(vh::mix(vh::mix(seed, 0xfa17), std::hash<std::string>()(c.id)));
-        bool big = p.size() > 40000;
+        bool big = p.size() > (thorough ? 40000u : 6000u);
         std::vector<Job> jobs;
         char tt = p[11] == 1 ? 't' : p[11] == 2 ? 'h' : 'p';
         auto add = [&](const std::string& sub, const std::string& kind, std::vector<Edit> es, long fa = -1, int style = 0) {
             Job j; j.id = c.id + "." + sub; j.cfg.mk = tt; j.cfg.tc = false; j.cfg.bu = (jobs.size() % 2) == 0; j.cfg.fail_at = fa; j.cfg.style = style;
             if (jobs.size() % 3 == 1) j.cfg.mk = 'p';
-            j.bytes = apply_edits(p, es); j.pre = x_line(j.id, c.id, j.cfg, kind, es); jobs.push_back(std::move(j)); };
+            j.bytes = apply_edits(p, es); j.pre = x_line(j.id, c.id, j.cfg, kind, es); j.same_as = &c.dump; jobs.push_back(std::move(j)); };
         // every truncation length (big files: every length in all header regions +-2, plus a stride)
         std::set<size_t> lens;
         if (!big) for (size_t k = 0; k < p.size(); ++k) lens.insert(k);
-        else { for (auto& ch : L.chunks) for (long d = -3; d <= 20; ++d) { long k = (long)ch.off + d; if (k >= 0 && (size_t)k < p.size()) lens.insert((size_t)k); }
-               for (size_t k = 0; k < 64; ++k) lens.insert(k); for (size_t k = 0; k < p.size(); k += 997) lens.insert(k); for (size_t k = p.size() > 40 ? p.size() - 40 : 0; k < p.size(); ++k) lens.insert(k); }
+        else { size_t nc = L.chunks.size(); size_t cstep = nc > 40 ? nc / 40 : 1;
+               for (size_t ci2 = 0; ci2 < nc; ++ci2) { auto& ch = L.chunks[ci2]; bool fullc = ci2 < 6 || ci2 + 3 >= nc || ci2 % cstep == 0;
+                   for (long d = fullc ? -3 : 0; d <= (fullc ? 20 : 0); ++d) { long k = (long)ch.off + d; if (k >= 0 && (size_t)k < p.size()) lens.insert((size_t)k); } }
+               for (size_t k = 0; k < 64; ++k) lens.insert(k); for (size_t k = 0; k < p.size(); k += p.size() / 300 + 1) lens.insert(k); for (size_t k = p.size() > 40 ? p.size() - 40 : 0; k < p.size(); ++k) lens.insert(k); }
+        std::cout << "FILE " << c.id << ' ' << p.size() << ' ' << (big ? "sampled" : "exhaustive") << ' ' << lens.size() << '\n';
         for (size_t k : lens) add("t" + std::to_string(k), "trunc", {{k, p.size() - k, Bytes()}});
         // every byte of file header / chunk headers / sub-headers x boundary values
-        for (auto& reg : L.hdr_regions) for (size_t o = reg.first; o < reg.first + reg.second && o < p.size(); ++o) {
+        size_t nreg = L.hdr_regions.size(); size_t rstep = big && nreg > 24 ? nreg / 24 : 1;
+        for (size_t ri = 0; ri < nreg; ++ri) { auto& reg = L.hdr_regions[ri];
+          if (big && !(ri < 6 || ri + 2 >= nreg || ri % rstep == 0)) continue;
+          for (size_t o = reg.first; o < reg.first + reg.second && o < p.size(); ++o) {
             uint8_t orig = p[o]; std::set<uint8_t> vals = {0, 1, 0x7f, 0x80, 0xff, (uint8_t)(orig + 1), (uint8_t)(orig - 1)};
-            if (big && reg.first != 0 && (o - reg.first) % 3) continue;
             for (uint8_t v : vals) if (v != orig) add("s" + std::to_string(o) + "_" + std::to_string(v), "subst", {{o, 1, Bytes{v}}});
-        }
+          } }
         // chunk drop / duplicate / adjacent swap
         for (size_t i = 0; i < L.chunks.size(); ++i) {
             auto& ch = L.chunks[i]; Bytes cb(p.begin() + ch.off, p.begin() + ch.off + ch.len);
             if (big && ch.len > 20000) continue;
+            if (big && L.chunks.size() > 40 && !(i < 8 || i + 3 >= L.chunks.size() || i % (L.chunks.size() / 30) == 0)) continue;
             add("cd" + std::to_string(i), "chunk-drop", {{ch.off, ch.len, Bytes()}});
             add("cu" + std::to_string(i), "chunk-dup", {{ch.off + ch.len, 0, cb}});
             if (i + 1 < L.chunks.size()) { auto& nx = L.chunks[i + 1]; add("cs" + std::to_string(i), "chunk-swap", {{ch.off, ch.len, Bytes()}, {nx.off + nx.len, 0, cb}}); }
